@@ -301,6 +301,42 @@ pub fn run(ctx: &Ctx) -> Report {
     ] {
         all.push(Ex::parse(s).unwrap());
     }
+    // look-alike sub-formulas inside one formula: (outer T1 T2) where T2 applies T1's connective to a
+    // rearrangement of T1's operands (sub-formula sharing keyed too coarsely confuses exactly these)
+    if !crate::core::disabled("lookalike") {
+        let names = ["A", "B", "C"];
+        let var = |i: usize| format!("(Var {})", names[i]);
+        let mut pairs: Vec<(String, String)> = Vec::new();
+        for a in 0..3usize {
+            for b in 0..3usize {
+                if a == b {
+                    continue;
+                }
+                for op in ["And", "Or", "Iff", "Xor"] {
+                    pairs.push((format!("({} {} {})", op, var(a), var(b)), format!("({} {} {})", op, var(b), var(a))));
+                    pairs.push((format!("({} {} (Not {}))", op, var(a), var(b)), format!("({} (Not {}) {})", op, var(a), var(b))));
+                }
+                for c in 0..3usize {
+                    let t1 = format!("(Ite {} {} {})", var(a), var(b), var(c));
+                    for (x, y, z) in [(a, c, b), (b, a, c), (b, c, a), (c, a, b), (c, b, a)] {
+                        if (x, y, z) != (a, b, c) {
+                            pairs.push((t1.clone(), format!("(Ite {} {} {})", var(x), var(y), var(z))));
+                        }
+                    }
+                }
+            }
+        }
+        let outers: Vec<&str> = if ctx.tier == Tier::Quick { vec!["Or", "Xor"] } else { vec!["And", "Or", "Iff", "Xor"] };
+        for (k, (t1, t2)) in pairs.iter().enumerate() {
+            let outer = outers[k % outers.len()];
+            all.push(Ex::parse(&format!("({} {} {})", outer, t1, t2)).unwrap());
+            if ctx.tier == Tier::Thorough {
+                for o in outers.iter().filter(|o| **o != outer) {
+                    all.push(Ex::parse(&format!("({} {} {})", o, t1, t2)).unwrap());
+                }
+            }
+        }
+    }
     // long chains: right- and left-nested And / Or / Xor with 4..8 operands cycling through
     // A, (Not B), C, (Not A), B, (Not C)
     {
